@@ -274,21 +274,35 @@ Probe == /\ phase = "walk" /\ n = 1 /\ hist = <<CanonStart>> /\ ~failed /\ ~unsp
          /\ phase' = "probe" /\ last' = NoEv
          /\ UNCHANGED <<n, hist, mdl>>
 
-CNext == Walk \/ Probe
+\* the code space of the base model once more after the thread has ended (OHx OHe):
+\* listed events are still processed there (OF[ OF] of a thread that has ended), so the
+\* rejection of unlisted codes is a separate obligation in that context (seeded change C18-13)
+ProbeEnded == /\ phase = "walk" /\ n = 2 /\ mdl = "O" /\ last.m = "OHe" /\ ~failed /\ ~unspec
+              /\ \E cv \in ProbePairs(mdl) :
+                    /\ CatStep(MkEv(mdl, cv[1], cv[2], <<>>, FALSE))
+                    /\ pv' = [c |-> cv[1], v |-> cv[2], acc |-> ~failed' /\ ~unspec']
+              /\ phase' = "probeE" /\ last' = NoEv
+              /\ UNCHANGED <<n, hist, mdl>>
+
+CNext == Walk \/ Probe \/ ProbeEnded
 CSpec == CInit /\ [][CNext]_cvars
 
 \* UnlistedAreRejected, on the whole code space
 ProbeConsistent ==
-   phase = "probe" =>
+   phase \in {"probe", "probeE"} =>
       LET m == ModelOf(mdl) IN
       (~Listed(m, pv.c, pv.v)) => (pv.acc <=> Excepted(m, pv.c, pv.v))
 
-ASSUME TLCSet(1, {}) /\ TLCSet(2, 0) /\ TLCSet(3, 0)
+ASSUME TLCSet(1, {}) /\ TLCSet(2, 0) /\ TLCSet(3, 0) /\ TLCSet(4, 0)
 Export ==
    /\ (phase' = "walk" /\ last'.mc = mdl /\ <<mdl, last'.c, last'.v>> \notin TLCGet(1)) =>
          /\ TLCSet(1, TLCGet(1) \cup {<<mdl, last'.c, last'.v>>})
          /\ PrintT(<<"WIT", ToJson([mc |-> mdl, ev |-> Slim(last'),
                                     pre |-> [i \in 1..Len(hist) |-> Slim(hist[i])]])>>)
+   /\ (phase' = "probeE") =>
+         /\ TLCSet(4, TLCGet(4) + 1)
+         /\ (~Listed(ModelOf(mdl), pv'.c, pv'.v) /\ pv'.acc) =>
+               PrintT(<<"ACCE", ToJson([mc |-> mdl, c |-> pv'.c, v |-> pv'.v])>>)
    /\ (phase' = "probe") =>
          /\ TLCSet(2, TLCGet(2) + 1)
          /\ (ExpectReject(ModelOf(mdl), pv'.c, pv'.v) => TLCSet(3, TLCGet(3) + 1))
@@ -306,4 +320,6 @@ Post ==
    /\ LET RECURSIVE Tot(_)
           Tot(M) == IF M = {} THEN 0 ELSE LET m == CHOOSE x \in M : TRUE IN Cardinality(ProbePairs(m.mc)) + Tot(M \ {m})
       IN TLCGet(2) = Tot(RunModels)
+   /\ PrintT(<<"SUME", ToJson([ended_probes |-> TLCGet(4)])>>)
+   /\ ((\E m \in RunModels : m.mc = "O") => TLCGet(4) = Cardinality(ProbePairs("O")))
 =============================================================================
